@@ -143,6 +143,7 @@ CMD_CASES = [
     (' lst[1] = [1, 2] ', ['lst', '1'], None),
     ('x.y[3].z[0][1]=v', ['x', 'y', '3', 'z', '0', '1'], 'v'),
     ('top=5', ['top'], '5'),
+    ('a.b={x: 1}', ['a', 'b', 'x'], '1'),        # an override whose value is a flow mapping is still an override (not raw yaml)
 ]
 
 
@@ -187,7 +188,7 @@ def r4(repo, run):
     else:
         run.ok('C08.R4', pc, 'default_inline_tag=%r -> allow_new=False' % tag)
     # the tag is actually emitted for inline options (evaluated)
-    yamls, filenames, raws = _cmdline(repo, [c[0] for c in CMD_CASES] + ['!force p.q=1', 'conf/file.yaml', '{a: 1}'])
+    yamls, filenames, raws = _cmdline(repo, [c[0] for c in CMD_CASES] + ['!force p.q=1', 'conf/file.yaml', '{a: 1}', 'a: 1\nb: 2', ' {k=v} '])
     bad = []
     for (opt, _, _), text in zip(CMD_CASES, yamls):
         rt, chain, _ = _key_chain(text)
@@ -195,6 +196,8 @@ def r4(repo, run):
             bad.append('the option %r becomes %r: the document is not tagged %s' % (opt, text[:60], tag))
     if yamls[len(CMD_CASES) + 1] != 'conf/file.yaml' or raws[len(CMD_CASES) + 1] is not False or yamls[len(CMD_CASES) + 2] != '{a: 1}':
         bad.append('file names / raw yaml arguments are not passed through unchanged')
+    if yamls[len(CMD_CASES) + 3] != 'a: 1\nb: 2' or raws[len(CMD_CASES) + 3] is not True or yamls[len(CMD_CASES) + 4] != ' {k=v} ' or raws[len(CMD_CASES) + 4] is not True:
+        bad.append('a multi-line argument / an argument in braces is not taken as raw yaml (got %r raw=%r; %r raw=%r)' % (yamls[len(CMD_CASES) + 3][:20], raws[len(CMD_CASES) + 3], yamls[len(CMD_CASES) + 4][:20], raws[len(CMD_CASES) + 4]))
     if bad:
         run.violation('C08.R4', pc, 'emission of the default tag', '; '.join(bad[:2]))
     else:
